@@ -427,6 +427,29 @@ theorem getImageVersion_arith (f : Nat) : getImageVersion f = if f / 1024 % 2 = 
   show _ = if f / 2 ^ 10 % 2 = 1 then f / 2 ^ 16 % 2 ^ 16 else 0
   unfold getImageVersion; mbi_flag_guarded 10
 
+/-! The getters in one fixed shape (mask/shift literals), whatever shape the generated bodies have: for proofs that
+    compare them with another formulation of the same fields (use these instead of `rfl`/`unfold`). -/
+
+theorem getImageType_shape (f : Nat) : getImageType f = f &&& 63 := by
+  rw [getImageType_arith]; exact (Nat.and_two_pow_sub_one_eq_mod f 6).symm
+theorem getTzType_shape (f : Nat) : getTzType f = (f >>> 13) &&& 3 := by
+  rw [getTzType_arith, Nat.shiftRight_eq_div_pow]; exact (Nat.and_two_pow_sub_one_eq_mod _ 2).symm
+theorem getSubType_shape (f : Nat) : getSubType f = (f >>> 6) &&& 3 := by
+  rw [getSubType_arith, Nat.shiftRight_eq_div_pow]; exact (Nat.and_two_pow_sub_one_eq_mod _ 2).symm
+theorem getHwKeyEnabled_shape (f : Nat) : getHwKeyEnabled f = (f &&& 4096 != 0) := by
+  rw [getHwKeyEnabled_arith]; exact (and_two_pow_ne_zero f 12).symm
+theorem getKeyStorePresented_shape (f : Nat) : getKeyStorePresented f = (f &&& 32768 != 0) := by
+  rw [getKeyStorePresented_arith]; exact (and_two_pow_ne_zero f 15).symm
+theorem getAppTablePresented_shape (f : Nat) : getAppTablePresented f = (f &&& 2048 != 0) := by
+  rw [getAppTablePresented_arith]; exact (and_two_pow_ne_zero f 11).symm
+theorem getImageVersion_shape (f : Nat) :
+    getImageVersion f = if (f &&& 1024 != 0) = true then (f >>> 16) &&& 65535 else 0 := by
+  have h : (f &&& 1024 != 0) = decide (f / 1024 % 2 = 1) := and_two_pow_ne_zero f 10
+  have e : (f >>> 16) &&& 65535 = f / 65536 % 65536 := by
+    rw [Nat.shiftRight_eq_div_pow]; exact Nat.and_two_pow_sub_one_eq_mod _ 16
+  rw [getImageVersion_arith, h, e]
+  simp only [decide_eq_true_eq]
+
 theorem flags_sum_fields (t sub vf tab hw tz ks ver : Nat) (ht : t < 64) (hsub : sub < 4) (hvf : vf < 2) (htab : tab < 2)
     (hhw : hw < 2) (htz : tz < 4) (hks : ks < 2) (hver : ver < 65536) (f : Nat)
     (hf : f = t + sub * 64 + vf * 1024 + tab * 2048 + hw * 4096 + tz * 8192 + ks * 32768 + ver * 65536) :
